@@ -266,7 +266,7 @@ func (h *determinismHook) post(c *explore.Ctx, pre *world.World, act world.Actio
 }
 
 func c13Profiles(tier Tier) []*explore.Profile {
-	o := menuOpts{thorough: tier.Thorough(), shards: 2}
+	o := menuOpts{thorough: tier.Thorough(), shards: 2, undisciplined: true}
 	mk := func(name string, seeds []string, depth int, menu func(w *world.World) []world.Action) *explore.Profile {
 		cfg := ledgerEnv(2)
 		h := &determinismHook{property: "C13", fresh: func() *world.Env {
@@ -331,8 +331,92 @@ func c13Profiles(tier Tier) []*explore.Profile {
 
 func init() { LedgerProfiles["C13"] = c13Profiles }
 
+// reconfigurationDeterminism: equal configuration histories give equal behaviour. N fresh factories
+// receive the same history (functions not yet active, a schedule change, the activation, a second
+// change); afterwards every priced class must give byte-identical results on all of them. The
+// factory's broadcast ranges over a Go map, whose order differs from run to run: a dependence on it
+// shows as a difference between instances.
+func reconfigurationDeterminism(tier Tier) ([]Viol, map[string]interface{}) {
+	n := 24
+	if tier.Thorough() {
+		n = 96
+	}
+	classes := pricedClasses()
+	type variant struct {
+		name  string
+		apply func(env *world.Env)
+	}
+	variants := []variant{
+		{"change while the epoch-gated functions are inactive, then activation", func(env *world.Env) {
+			env.ChangeSchedule(world.PrimeSchedule(1))
+			env.ConfirmEpoch(1)
+		}},
+		{"two changes, the first while inactive", func(env *world.Env) {
+			env.ChangeSchedule(world.PrimeSchedule(1))
+			env.ConfirmEpoch(1)
+			env.ChangeSchedule(world.PrimeSchedule(2))
+		}},
+		{"change, rejected change, regression below the activation epoch and back", func(env *world.Env) {
+			env.ConfirmEpoch(1)
+			env.ChangeSchedule(world.PrimeSchedule(2))
+			env.ChangeSchedule(nil)
+			env.ConfirmEpoch(0)
+			env.ChangeSchedule(world.PrimeSchedule(1))
+			env.ConfirmEpoch(1)
+		}},
+	}
+	var viols []Viol
+	var baseWorld *world.World
+	execs := 0
+	for _, v := range variants {
+		var first [][]byte
+		reported := map[string]bool{}
+		for i := 0; i < n; i++ {
+			cfg := ledgerEnv(2)
+			cfg.Schedule = world.PrimeSchedule(0)
+			cfg.ActivationEpoch = 1
+			env, err := world.NewEnv(cfg)
+			if err != nil {
+				panic(err)
+			}
+			if baseWorld == nil {
+				e0, _ := world.NewEnv(ledgerEnv(2))
+				baseWorld = catalogueBase(e0)
+			}
+			v.apply(env)
+			var canon [][]byte
+			for _, pc := range classes {
+				act := pc.act
+				act.Gas = 1_000_000_000
+				post, legs := env.Step(baseWorld, act)
+				canon = append(canon, canonStep(post, legs))
+				execs++
+			}
+			if i == 0 {
+				first = canon
+				continue
+			}
+			for ci := range canon {
+				if !bytes.Equal(canon[ci], first[ci]) && !reported[classes[ci].name] {
+					reported[classes[ci].name] = true
+					fn := classes[ci].act.Func
+					viols = append(viols, Viol{Property: "C13", Clause: "determinism", Sig: fn + ":differs-between-equally-configured-instances",
+						Detail: fmt.Sprintf("after the configuration history \"%s\" applied to two freshly built factories, %s gives different results on instance 0 and instance %d (equal world, equal input)", v.name, classes[ci].name, i),
+						Kind:   "case", Replay: "reconfiguration:" + v.name + ":" + classes[ci].name})
+				}
+			}
+		}
+	}
+	return viols, map[string]interface{}{"instances_per_history": n, "configuration_histories": len(variants), "classes": len(classes), "executions": execs}
+}
+
 // C13 decides "execution is deterministic and does not modify its input".
 func C13(tier Tier) int {
+	PendingViolations["C13"], PendingCoverage["C13"] = nil, nil
+	if rv, cov := reconfigurationDeterminism(tier); true {
+		PendingViolations["C13"] = rv
+		PendingCoverage["C13"] = map[string]interface{}{"reconfiguration_determinism": cov}
+	}
 	req := []string{"rechecked:ESDTTransfer", "rechecked:MultiESDTNFTTransfer", "rechecked:ESDTNFTCreate", "rechecked:ESDTSetRole", "rechecked:SaveKeyValue", "rechecked:ESDTNFTCreateRoleTransfer", "rechecked:ESDTWipe", "rechecked:ClaimDeveloperRewards"}
 	return RunLedger("C13", tier, c13Profiles(tier), req,
 		"map iteration order cannot be enumerated from outside: independence from it is observed through the 4 executions per transition only (DESIGN.md §7)",
@@ -378,9 +462,13 @@ func wholeMenu(w *world.World, o menuOpts) []world.Action {
 	acts = append(acts,
 		uni.Call(uni.A0, uni.A0, vmcommon.BuiltInFunctionSaveKeyValue, []byte("k"), e, []byte("k2"), []byte("v")),
 		uni.Call(uni.A0, uni.A0, vmcommon.BuiltInFunctionSaveKeyValue, []byte("k"), []byte("v"), []byte("k"), e, []byte("k"), []byte("w")),
-		uni.SetRole(uni.B0, uni.S, vmcommon.ESDTRoleNFTBurn, vmcommon.ESDTRoleNFTBurn, vmcommon.ESDTRoleNFTAddQuantity),
-		uni.UnSetRole(uni.A0, uni.S, vmcommon.ESDTRoleNFTBurn, "ESDTRoleUnknown", vmcommon.ESDTRoleNFTBurn),
 		uni.Multi(uni.A0, uni.B0, []uni.Ent{{Tok: uni.F, Nonce: 0, Q: 1}, {Tok: uni.S, Nonce: 1, Q: 1}, {Tok: uni.F, Nonce: 0, Q: 1}}),
 	)
+	if o.undisciplined {
+		// role messages no disciplined system contract sends (a name twice, an unknown name)
+		acts = append(acts,
+			uni.SetRole(uni.B0, uni.S, vmcommon.ESDTRoleNFTBurn, vmcommon.ESDTRoleNFTBurn, vmcommon.ESDTRoleNFTAddQuantity),
+			uni.UnSetRole(uni.A0, uni.S, vmcommon.ESDTRoleNFTBurn, "ESDTRoleUnknown", vmcommon.ESDTRoleNFTBurn))
+	}
 	return acts
 }
